@@ -330,3 +330,22 @@ Definition agree (segs : list seg) (io : impl_out) : bool :=
 (* the same, and the guard of the theorems holds on this input *)
 Definition agree_guarded (segs : list seg) (io : impl_out) : bool :=
   guard tol8 segs && agree segs io.
+
+(* ------------------------------------------------------------------ added in the second round
+   (nothing above is changed).  The stronger guard of the full non-crossing /
+   no-duplicates theorems: additionally, the two scalar distance tests of the side filter
+   answer like their exact counterparts — whenever `dist(start_other, start_main) > tol` is
+   False, every other of that main really starts at the main's start point, and likewise
+   for the end points. *)
+Definition flags_exact_at (tol : Q) (isegs : list (nat * seg)) (ig : nat * seg) : bool :=
+  let oth := others tol isegs ig in
+  let gs := qltb (tol * tol) (sumsq (map (fun jg => sub2 (sS (snd jg)) (sS (snd ig))) oth)) in
+  let ge := qltb (tol * tol) (sumsq (map (fun jg => sub2 (sE (snd jg)) (sS (snd ig))) oth)) in
+  (gs || forallb (fun jg => peqb (sS (snd jg)) (sS (snd ig))) oth) &&
+  (ge || forallb (fun jg => peqb (sE (snd jg)) (sS (snd ig))) oth).
+
+Definition guard2 (tol : Q) (segs : list seg) : bool :=
+  guard tol segs && forallb (flags_exact_at tol (indexed segs)) (indexed segs).
+
+Definition agree_guarded2 (segs : list seg) (io : impl_out) : bool :=
+  guard2 tol8 segs && agree segs io.
